@@ -19,6 +19,11 @@ type entry struct {
 
 var registry = map[string]entry{
 	"C01": {"exploration", props.C01},
+	"C02": {"exploration", props.C02},
+	"C03": {"exploration", props.C03},
+	"C04": {"exploration", props.C04},
+	"C05": {"exploration", props.C05},
+	"C06": {"exploration", props.C06},
 	"C20": {"exploration", comp.C20},
 	"C21": {"exploration", comp.C21},
 	"C16": {"exploration", comp.C16},
